@@ -150,6 +150,10 @@ pub struct Case {
     pub op: String,
     /// count, or a factor (of L for spacings, of scale for tolerances)
     pub param: f64,
+    /// closed within the tolerance but not exactly: the last vertex is displaced by this fraction of the
+    /// curve tolerance (0 = as listed)
+    #[serde(default)]
+    pub nudge: f64,
 }
 
 struct Src {
@@ -350,7 +354,12 @@ pub fn judge(case: &Case, l: &mut Local) {
     let eps = 1e-9 * case.scale * 3.0;
     let op = case.op.as_str();
     if case.dim == 2 {
-        let pts: Vec<Point2> = case.verts.iter().map(|c| gen::p2([c[0], c[1]], case.scale)).collect();
+        let mut pts: Vec<Point2> = case.verts.iter().map(|c| gen::p2([c[0], c[1]], case.scale)).collect();
+        if case.nudge != 0.0 {
+            let n = pts.len();
+            pts[n - 1] += engeom::Vector2::new(0.6, 0.8) * (case.nudge * tol);
+            l.bucket("source closed only within the tolerance");
+        }
         if op == "rdp" || op == "fillgaps" {
             let v = to2(&pts);
             let s = Src { simple: is_simple(&v, false, eps), c: cum(&v), v, closed: false, tol, eps };
@@ -439,7 +448,7 @@ pub fn requests() -> Vec<(&'static str, f64)> {
     for f in [2.0, 1.0, 0.5, 1.0 / 2.5, 1.0 / 7.3] {
         r.push(("maxspacing", f));
     }
-    for e in [1e-6, 0.3, 0.8, 1.5, 5.0] {
+    for e in [0.0, 1e-6, 0.3, 0.8, 1.5, 5.0] {
         r.push(("simplify", e));
         r.push(("rdp", e));
     }
@@ -462,8 +471,24 @@ pub fn cases(tier: Tier) -> Vec<Case> {
                     if fc && (op == "rdp" || op == "fillgaps") {
                         continue;
                     }
-                    out.push(Case { dim: 2, verts: verts.clone(), force_closed: fc, scale: *scale, op: op.into(), param });
+                    out.push(Case { dim: 2, verts: verts.clone(), force_closed: fc, scale: *scale, op: op.into(), param, nudge: 0.0 });
                 }
+            }
+        }
+    }
+    // naturally closed sequences whose last vertex misses the first by half the curve tolerance: closed, but
+    // not exactly
+    for s in gen::seqs(lat2.len(), 4, tier.pick(4, 5)) {
+        if s[0] != s[s.len() - 1] {
+            continue;
+        }
+        let verts: Vec<Vec<i32>> = s.iter().map(|i| lat2[*i].to_vec()).collect();
+        for scale in [0.25, 7.3] {
+            for (op, param) in requests() {
+                if op == "rdp" || op == "fillgaps" {
+                    continue;
+                }
+                out.push(Case { dim: 2, verts: verts.clone(), force_closed: false, scale, op: op.into(), param, nudge: 0.5 });
             }
         }
     }
@@ -473,7 +498,7 @@ pub fn cases(tier: Tier) -> Vec<Case> {
             let mut verts: Vec<Vec<i32>> = s.iter().map(|i| lat2[*i * 2].to_vec()).collect();
             verts.insert(rep, verts[rep].clone());
             for e in [1e-6, 0.8] {
-                out.push(Case { dim: 2, verts: verts.clone(), force_closed: false, scale: 1.0, op: "rdp".into(), param: e });
+                out.push(Case { dim: 2, verts: verts.clone(), force_closed: false, scale: 1.0, op: "rdp".into(), param: e, nudge: 0.0 });
             }
         }
     }
@@ -486,7 +511,7 @@ pub fn cases(tier: Tier) -> Vec<Case> {
         };
         for scale in sc {
             for (op, param) in requests() {
-                out.push(Case { dim: 3, verts: verts.clone(), force_closed: false, scale: *scale, op: op.into(), param });
+                out.push(Case { dim: 3, verts: verts.clone(), force_closed: false, scale: *scale, op: op.into(), param, nudge: 0.0 });
             }
         }
     }
@@ -497,7 +522,7 @@ pub fn run(tier: Tier) -> i32 {
     let mut cx = Ctx::new("C05", tier, "exploration");
     cx.rule = "every vertex sequence over the 3x3 / 3x3x3 lattice up to the length bound x {open, force-closed} x scales straddling one unit of total length x the request menu (counts, spacings, max spacings, simplify/RDP tolerances, gap maxima); reference model: arc-length point function by linear scan and brute-force segment distance. distinct = distinct source curves".into();
     cx.bounds = json!({"seq_len_2d": tier.pick(4, 5), "seq_len_3d": 3, "scales": [1e-3, 0.25, 1.0, 7.3, 1e3], "requests": requests().iter().map(|(o, p)| format!("{}:{}", o, p)).collect::<Vec<_>>()});
-    cx.require(&["simple source", "self-touching source", "closed source", "open source", "3D source", "total length below one unit", "total length above one unit", "count", "spacing", "maxspacing", "simplify", "rdp", "fillgaps"]);
+    cx.require(&["simple source", "self-touching source", "closed source", "source closed only within the tolerance", "open source", "3D source", "total length below one unit", "total length above one unit", "count", "spacing", "maxspacing", "simplify", "rdp", "fillgaps"]);
     cx.assume("closed curves: requests that cannot leave three distinct positions may be rejected with Err (gray)");
     cx.assume("resampling clauses are judged on simple sources only (no two non-adjacent edges touch, no fold-back): on a self-overlapping polyline samples coincide and are merged, so span and spacing are not well defined; simplify, RDP and gap filling are judged on every source");
     let cs = cases(tier);
